@@ -1690,3 +1690,28 @@ VARIANTS['C03'] += [
         "                s = CencSampleAuxiliaryData.parse(\n                    src, size, rv[\"iv_size\"], rv[\"flags\"], offset)\n                rv[\"samples\"].append(s)\n                offset += size\n")],
       None),
 ]
+
+TZPY = 'dashlive/utils/timezone.py'
+_TZ_OLD = ("        offset = int(tz_match.group('hour'), 10) * 60\n        offset += int(tz_match.group('minute'), 10)\n"
+           "        if tz_match.group('delta') == '-':\n            offset = -offset\n        self.__offset = datetime.timedelta(minutes=offset)\n")
+for _p, _r in (('C19', 'R19.3'), ('C08', 'R08.10'), ('C07', 'R07.8')):
+    VARIANTS[_p] += [
+        V('UTC offset folded into the half day either side of UTC',
+          [(TZPY, "            offset = -offset\n        self.__offset = datetime.timedelta(minutes=offset)\n",
+            "            offset = -offset\n        offset = (offset + 720) % 1440 - 720\n        self.__offset = datetime.timedelta(minutes=offset)\n")],
+          _r, '__init__'),
+        V('sign of the UTC offset attached to the hour text, minutes negated when the hours are negative',
+          [(TZPY, _TZ_OLD,
+            "        hours = int(tz_match.group('delta') + tz_match.group('hour'), 10)\n        minutes = int(tz_match.group('minute'), 10)\n"
+            "        if hours < 0:\n            minutes = -minutes\n        self.__offset = datetime.timedelta(hours=hours, minutes=minutes)\n")],
+          _r, '__init__'),
+        V('neutral: sign of the UTC offset attached to hour and minute texts alike',
+          [(TZPY, _TZ_OLD,
+            "        sign = tz_match.group('delta')\n        hours = int(sign + tz_match.group('hour'), 10)\n"
+            "        minutes = int(sign + tz_match.group('minute'), 10)\n        self.__offset = datetime.timedelta(hours=hours, minutes=minutes)\n")],
+          None),
+        V('neutral: UTC offset limited to what a tzinfo may return',
+          [(TZPY, "            offset = -offset\n        self.__offset = datetime.timedelta(minutes=offset)\n",
+            "            offset = -offset\n        offset = max(-1439, min(1439, offset))\n        self.__offset = datetime.timedelta(minutes=offset)\n")],
+          None),
+    ]
